@@ -24,6 +24,7 @@ import (
 
 type Input struct {
 	Vec            []string `json:"vec"`
+	ChainLen       int      `json:"chainLen"`
 	Scheme         string   `json:"scheme"`
 	Iface          string   `json:"iface"`
 	Action         string   `json:"action"`
@@ -91,7 +92,7 @@ var methodMap = map[string]revresult.RevocationMethod{"ocsp": revresult.Revocati
 	"fallback": revresult.RevocationMethodOCSPFallbackCRL, "unknown": revresult.RevocationMethodUnknown}
 
 func runCase(w *world, in Input, format string) Obs {
-	n := len(in.Vec)
+	n := in.ChainLen
 	chain := w.chains[n]
 	scheme := common.SchemeX509
 	storeType := "ca"
@@ -106,8 +107,8 @@ func runCase(w *world, in Input, format string) Obs {
 		if in.ValidatorError {
 			return nil, errors.New("validator failure")
 		}
-		out := make([]*revresult.CertRevocationResult, n)
-		for k := 0; k < n; k++ {
+		out := make([]*revresult.CertRevocationResult, len(in.Vec))
+		for k := 0; k < len(in.Vec); k++ {
 			m := methodMap[in.Methods[k]]
 			cr := &revresult.CertRevocationResult{Result: resMap[in.Vec[k]], RevocationMethod: m}
 			sr := &revresult.ServerResult{Result: resMap[in.Vec[k]], Server: "http://example/" + fmt.Sprint(k), RevocationMethod: m}
@@ -235,7 +236,7 @@ func Run(c *common.Ctx) error {
 								if verr && c.Rand.Intn(4) != 0 {
 									continue
 								}
-								in := Input{Vec: vec, Scheme: scheme, Iface: iface, Action: action, ValidatorError: verr,
+								in := Input{Vec: vec, ChainLen: n, Scheme: scheme, Iface: iface, Action: action, ValidatorError: verr,
 									IdentityPlugin: c.Rand.Intn(4) == 0}
 								for k := 0; k < n; k++ {
 									in.Methods = append(in.Methods, methods[c.Rand.Intn(len(methods))])
@@ -252,6 +253,36 @@ func Run(c *common.Ctx) error {
 								c.Count("action=" + action)
 							}
 						}
+					}
+				}
+			}
+		}
+	}
+	// a validator that does NOT answer with one result per certificate (fewer, none, more): must fail closed
+	for n := 1; n <= 4; n++ {
+		for m := 0; m <= 5; m++ {
+			if m == n {
+				continue
+			}
+			for _, vec := range vectors(m) {
+				if m >= 3 && c.Rand.Intn(8) != 0 {
+					continue
+				}
+				for _, iface := range []string{"validator", "client"} {
+					for _, action := range []string{"enforce", "log"} {
+						in := Input{Vec: vec, ChainLen: n, Scheme: "x509", Iface: iface, Action: action}
+						if in.Vec == nil {
+							in.Vec = []string{}
+						}
+						in.Methods, in.ServerErrors = []string{}, []bool{}
+						for k := 0; k < m; k++ {
+							in.Methods = append(in.Methods, "ocsp")
+							in.ServerErrors = append(in.ServerErrors, false)
+						}
+						o := runCase(w, in, common.MediaJWS)
+						c.Emit(in, o)
+						c.Count("result-count-mismatch")
+						c.Count("outcome=" + o.Outcome)
 					}
 				}
 			}
